@@ -409,6 +409,12 @@ class VgiAccessLogFormatter(VgiJsonFormatter):
             "error_type": obj.get("error_type", ""),
             "truncated": "record_too_large",
         }
+        # ``stream_id`` is required whenever ``method_type`` is "stream", so the
+        # sentinel of a stream record keeps it (and stays correlated with the
+        # other records of its stream).
+        stream_id = obj.get("stream_id")
+        if isinstance(stream_id, str) and stream_id:
+            sentinel["stream_id"] = stream_id
         if sentinel["status"] == "error":
             err = obj.get("error_message")
             sentinel["error_message"] = err if isinstance(err, str) and err else "record_too_large"
